@@ -822,10 +822,26 @@ theorem run1_sorted (p : Params) (cap : Nat) (ops : List Op1) : Sorted (run1 p c
 
 /-! ### invariant C: provenance, dates, routing -/
 
-/-- a plan stems from released records of its site, the newest not before the reporting delay -/
+/-- the rate a decision looks at is the redundancy-filtered rate of the detections behind it:
+mobile `filt filter rates` (recent / max / average); stationary the rolling means over the small /
+large window — except for a planner that has seen one detection only, which starts at 0 -/
+def RateOK (p : Params) (rate rateLong : Rat) (rates : List Rat) : Prop :=
+  if p.stationary then
+    (rates.length = 1 ∧ rate = 0 ∧ rateLong = 0) ∨
+    (2 ≤ rates.length ∧ rate = meanLast p.sw rates ∧ rateLong = meanLast p.lw rates)
+  else rate = filt p.filter rates
+
+/-- a plan stems from released records of its site, the newest not before the reporting delay, and
+its rate is the redundancy-filtered rate of those records -/
 def PlanOK (p : Params) (rel : List Rec) (today : Int) (pl : Plan) : Prop :=
   pl.rates ≠ [] ∧ (∀ r ∈ pl.rates, ∃ rc ∈ rel, rc.site = pl.site ∧ rc.rate = r) ∧
-  pl.latest + p.rd ≤ today
+  pl.latest + p.rd ≤ today ∧ RateOK p pl.rate pl.rateLong pl.rates ∧ (pl.sw = p.sw ∧ pl.lw = p.lw)
+
+theorem filt_singleton (f : Filter) (x : Rat) : filt f [x] = x := by
+  cases f
+  · simp [filt]
+  · simp [filt, maxR]
+  · simp [filt, sumR]; grind
 
 /-- the routing condition behind a flag event -/
 def RouteOK (p : Params) (f : FlagEv) : Prop :=
@@ -839,7 +855,7 @@ def RouteOK (p : Params) (f : FlagEv) : Prop :=
 def GoodFlag (p : Params) (rel : List Rec) (today : Int) (f : FlagEv) : Prop :=
   f.recDate + p.rd ≤ f.day ∧ f.day ≤ today ∧ f.rates ≠ [] ∧
   (∀ r ∈ f.rates, ∃ rc ∈ rel, rc.site = f.site ∧ rc.rate = r ∧ rc.date + p.rd ≤ f.day) ∧
-  RouteOK p f
+  RouteOK p f ∧ RateOK p f.rate f.rateLong f.rates
 
 structure InvC (p : Params) (st : St) : Prop where
   poolOK : ∀ pl ∈ st.m.pool, PlanOK p st.m.released st.m.today pl
@@ -854,8 +870,8 @@ theorem invC_init (p : Params) : InvC p {} := by
 
 theorem planOK_mono {p : Params} {rel rel' : List Rec} {t t' : Int} {pl : Plan}
     (h : PlanOK p rel t pl) (hr : ∀ x ∈ rel, x ∈ rel') (ht : t ≤ t') : PlanOK p rel' t' pl := by
-  obtain ⟨a, b, c⟩ := h
-  refine ⟨a, ?_, by omega⟩
+  obtain ⟨a, b, c, e⟩ := h
+  refine ⟨a, ?_, by omega, e⟩
   intro r hr'
   obtain ⟨rc, h1, h2⟩ := b r hr'
   exact ⟨rc, hr rc h1, h2⟩
@@ -871,31 +887,52 @@ theorem goodFlag_mono {p : Params} {rel rel' : List Rec} {t t' : Int} {f : FlagE
 theorem planOK_upd {p : Params} {rel : List Rec} {today dc : Int} {pl : Plan} {r : Rec}
     (h : PlanOK p rel today pl) (hr : r ∈ rel) (hs : pl.site = r.site) (hd : dc + p.rd ≤ today) :
     PlanOK p rel today (updPlan p pl r.rate dc) := by
-  obtain ⟨a, b, c⟩ := h
+  obtain ⟨a, b, c, e, w⟩ := h
+  have hlen : 1 ≤ pl.rates.length := by
+    cases hl : pl.rates with
+    | nil => exact absurd hl a
+    | cons x t => simp
   unfold updPlan PlanOK
   split
-  all_goals
-    refine ⟨by simp, ?_, hd⟩
-    intro x hx
-    simp only [List.mem_append, List.mem_singleton] at hx
-    rcases hx with hx | rfl
-    · exact b x hx
-    · exact ⟨r, hr, hs.symm, rfl⟩
+  · rename_i hst
+    refine ⟨by simp, ?_, hd, ?_, w⟩
+    · intro x hx
+      simp only [List.mem_append, List.mem_singleton] at hx
+      rcases hx with hx | rfl
+      · exact b x hx
+      · exact ⟨r, hr, hs.symm, rfl⟩
+    · unfold RateOK
+      simp only [hst, if_true, List.length_append, List.length_cons, List.length_nil]
+      right
+      exact ⟨by omega, by rw [w.1], by rw [w.2]⟩
+  · rename_i hst
+    refine ⟨by simp, ?_, hd, ?_, w⟩
+    · intro x hx
+      simp only [List.mem_append, List.mem_singleton] at hx
+      rcases hx with hx | rfl
+      · exact b x hx
+      · exact ⟨r, hr, hs.symm, rfl⟩
+    · unfold RateOK
+      simp [hst]
 
 theorem planOK_new {p : Params} {rel : List Rec} {today dc : Int} {r : Rec}
     (hr : r ∈ rel) (hd : dc + p.rd ≤ today) : PlanOK p rel today (newPlan p r dc) := by
-  refine ⟨by simp [newPlan], ?_, hd⟩
-  intro x hx
-  simp only [newPlan, List.mem_singleton] at hx
-  subst hx
-  exact ⟨r, hr, rfl, rfl⟩
+  refine ⟨by simp [newPlan], ?_, hd, ?_, ⟨rfl, rfl⟩⟩
+  · intro x hx
+    simp only [newPlan, List.mem_singleton] at hx
+    subst hx
+    exact ⟨r, hr, rfl, rfl⟩
+  · unfold RateOK newPlan
+    cases hst : p.stationary
+    · simp [filt_singleton]
+    · simp
 
 theorem goodFlag_instant {p : Params} {rel : List Rec} {d dc tag : Int} {pl : Plan}
     (h : PlanOK p rel d pl) (hrel : ∀ rc ∈ rel, rc.date + p.rd ≤ d) (hi : geInst p pl.rate = true)
     (hl : pl.latest = dc) (hd : dc + p.rd = d) (ht : tag ≤ dc) :
     GoodFlag p rel d (mkEv pl .instant d d tag) := by
-  obtain ⟨a, b, c⟩ := h
-  refine ⟨by simp [mkEv]; omega, by simp [mkEv], by simpa [mkEv] using a, ?_, ?_⟩
+  obtain ⟨a, b, c, e, _⟩ := h
+  refine ⟨by simp [mkEv]; omega, by simp [mkEv], by simpa [mkEv] using a, ?_, ?_, by simpa [mkEv] using e⟩
   · intro r hr
     obtain ⟨rc, h1, h2, h3⟩ := b r (by simpa [mkEv] using hr)
     exact ⟨rc, h1, by simpa [mkEv] using h2, h3, by simpa [mkEv] using hrel rc h1⟩
@@ -1170,9 +1207,10 @@ theorem flagOne_loopC (p : Params) (d first : Int) (st : St) (pl : Plan) (cs : L
       simp only [flagSite, List.mem_append, List.mem_singleton] at hf
       rcases hf with hf | rfl
       · exact hevs f hf
-      · obtain ⟨a, b, c⟩ := hpl
+      · obtain ⟨a, b, c, e, _⟩ := hpl
         simp only [flagSite]
-        refine ⟨by simp only [mkEv]; omega, by simp only [mkEv]; omega, by simpa [mkEv] using a, ?_, ?_⟩
+        refine ⟨by simp only [mkEv]; omega, by simp only [mkEv]; omega, by simpa [mkEv] using a, ?_, ?_,
+          by simpa [mkEv] using e⟩
         · intro r hr
           obtain ⟨rc, h1, h2, h3⟩ := b r (by simpa [mkEv] using hr)
           refine ⟨rc, h1, by simpa [mkEv] using h2, h3, ?_⟩
@@ -1508,7 +1546,7 @@ theorem followUpDay_invD (p : Params) (cap : Nat) (d : Int) (outs : Nat → Outc
       apply mem_dedup_fold
       · simp
       · intro e he
-        have := (hc.queueOK e (List.mem_of_mem_take he)).2.2
+        have := (hc.queueOK e (List.mem_of_mem_take he)).2.2.1
         omega)
   refine ⟨?_, this.2⟩
   intro s
